@@ -229,6 +229,7 @@ def run_case(case, res):
                 return next(i for i, c in enumerate(kids_before) if c is before)
 
             exp = None
+            top_kind_override = None
             got_nodes = None
             target = None
             copied_sources = None
@@ -271,14 +272,17 @@ def run_case(case, res):
                 try:
                     if route == "copy_to_self":
                         new = src.copy_to(target, before=before, deep=deep)
-                    elif not typed and hasattr(target, "append_child") and rng.random() < 0.35:
-                        # the shortcut routes: at either end, or relative to a child of the target
-                        anchor = rng.choice(kb) if kb and rng.random() < 0.6 else None
+                    elif hasattr(target, "append_child") and rng.random() < 0.35 and (not typed or kb):
+                        # the shortcut routes: at either end, or relative to a child of the target (typed trees: relative to
+                        # a child only - the copy takes the anchor's kind and sits next to it whatever the neighbours' kinds)
+                        anchor = rng.choice(kb) if kb and (typed or rng.random() < 0.6) else None
                         if anchor is not None:
                             which = rng.choice(["prepend_sibling", "append_sibling"])
                             i = next(j for j, c in enumerate(kb) if c is anchor)
                             before = anchor if which == "prepend_sibling" else (kb[i + 1] if i + 1 < len(kb) else None)
                             new = getattr(anchor, which)(src, deep=deep)
+                            if typed:
+                                top_kind_override = anchor.kind  # documented: "a new node of same kind" as the anchor
                         else:
                             which = rng.choice(["append_child", "prepend_child"])
                             before = None if which == "append_child" else True
@@ -372,6 +376,17 @@ def run_case(case, res):
                         holder_call = lambda deep: getattr(target, meth)(src_t, before=before, deep=deep)
                     res.count(f"add_tree_via:{meth}")
                 kb = kids_of(target)
+                if route == "add_tree" and rng.random() < 0.2:
+                    # a tree without nodes has nothing to copy: whatever the position, the target keeps its children
+                    empty = type(src_t)("empty")
+                    try:
+                        getattr(target, "add")(empty, before=before, deep=deep)
+                    except Exception:
+                        res.count("empty_tree_add_raised")
+                    else:
+                        res.count("empty_tree_adds")
+                    if [id(c) for c in kids_of(target)] != [id(c) for c in kb] or ident(other_t) != before_other:
+                        bad.append(f"adding an empty tree (before={before!r}) changed the target")
                 ids_new = [s.data_id for s in sources]
                 collide = any(c.data_id in ids_new for c in kb)
                 if not sources:
@@ -414,6 +429,9 @@ def run_case(case, res):
                 res.case(case, nontrivial=len(branch) >= 3)
             if exp is None:
                 exp = shape(copied_sources)
+            if top_kind_override is not None:
+                exp = default_top_kinds(exp, top_kind_override)
+                kind_less_top = False
             got = shape(got_nodes)
             # new node objects
             src_ids = {id(x) for x in src_nodes} | {id(x) for x in other_nodes}
